@@ -104,6 +104,32 @@ def parse_dump(err):
     return start, nodes
 
 
+def parse_dfa_dump(err):
+    """({(state, sym): target}, {state: accepting number}) from the 'DFA Dump:' part of flex -T, or None"""
+    i = err.find("DFA Dump:")
+    if i < 0:
+        return None
+    trans, acc = {}, {}
+    cur = None
+    for line in err[i:].splitlines():
+        m = re.match(r"^state # (\d+):\s*$", line)
+        if m:
+            cur = int(m.group(1))
+            continue
+        m = re.match(r"^\t(\d+)\t(\d+)\s*$", line)
+        if m and cur is not None:
+            trans[(cur, int(m.group(1)))] = int(m.group(2))
+            continue
+        m = re.match(r"^state # (\d+) accepts: \[(\d+)\]\s*$", line)
+        if m:
+            acc[int(m.group(1))] = int(m.group(2))
+            cur = None
+            continue
+        if line.startswith("Equivalence Classes") or line.startswith("Meta-Equivalence"):
+            break
+    return trans, acc
+
+
 def nfa_worker(case):
     wd = os.path.join(engine._ROOT, "c%s" % case['id'])
     os.makedirs(wd, exist_ok=True)
@@ -134,7 +160,29 @@ def nfa_worker(case):
         sx = "(nfa (start %d) (nodes %s) (ccls %s))" % (
             start, " ".join("(%d %d %d %d)" % n for n in nodes),
             " ".join("(%d (%s))" % (ng, " ".join(str(b) for b in bs)) for ng, bs in ccls))
-        rc, out, err = scanner.run_driver("(case %s\n%s\n(queries ((nfacheck %d))))\n" % (scanner.sx_program(prog), sx, case.get('fuel', 60000)),
+        # the DFA of dfa.c before compression and the equivalence classes of ecs.c, from the same run
+        queries = ["(nfacheck %d)" % case.get('fuel', 60000)]
+        dd = parse_dfa_dump(errt)
+        with open(os.path.join(wd, "s.c"), errors="replace") as f:
+            import tables
+            tt = tables.parse_scanner(f.read())
+        yyec = (tt['arrays'].get('yy_ec') or {}).get('data')
+        csize = prog['csize']
+        nul = (tt.get('defines') or {}).get('YY_NUL_EC')
+        if yyec and len(yyec) >= csize:
+            ec = [int(x) for x in yyec[:256]] + [0] * (256 - len(yyec[:256]))
+        else:
+            ec = [csize] + list(range(1, 256))          # no equivalence classes: a byte is its own symbol, NUL is symbol csize
+        if nul is not None:
+            ec[0] = int(nul)                            # the symbol of NUL is YY_NUL_EC (yy_ec[0] is not used by the scanner)
+        if dd is not None and dd[1]:           # (-CF prints no accepting numbers: nothing to judge the printed DFA by)
+            trans, acc = dd
+            width = max([c for (_, c) in trans] + [max(ec)]) + 1
+            sx += "\n(dfa (width %d) (trans %s) (acc %s) (ec %s))" % (
+                width, " ".join("(%d %d %d)" % (s_, c_, t_) for (s_, c_), t_ in sorted(trans.items())),
+                " ".join("(%d %d)" % kv for kv in sorted(acc.items())), " ".join(str(x) for x in ec))
+            queries += ["(eccheck)", "(dfacheck %d)" % case.get('fuel', 60000)]
+        rc, out, err = scanner.run_driver("(case %s\n%s\n(queries (%s)))\n" % (scanner.sx_program(prog), sx, " ".join(queries)),
                                           wd, timeout=120)
         if rc != 0:
             res['problems'].append(('driver-error', "rc=%s %s" % (rc, err[:300])))
@@ -157,16 +205,55 @@ def nfa_worker(case):
                                     "C01_nfa_accepts_the_documented_language fails): %s%s" % (
                                         line[:400], ("; the compiled scanner leaves the documented tokenisation on input " + bytes(failing).hex())
                                         if failing else "")))
+        # equivalence classes and the uncompressed DFA
+        eline = next((l for l in out.splitlines() if l.startswith("eccheck")), None)
+        if eline is not None:
+            res['ec_checked'] = 1
+            if not eline.startswith("eccheck OK"):
+                m = re.search(r"bytes=(\d+),(\d+)", eline)
+                failing = confirm(case, wd, text, [int(m.group(1))], alt=[int(m.group(2))]) if m else None
+                res['failing_input'] = res.get('failing_input') or failing
+                res['problems'].append(('ec-mismatch', "two bytes of one equivalence class (yy_ec) are told apart by a transition of the NFA "
+                                        "(premise of C02_equivalence_classes_respect_the_nfa fails): %s%s" % (
+                                            eline[:300], ("; failing input " + bytes(failing).hex()) if failing else "")))
+        dline = next((l for l in out.splitlines() if l.startswith("dfacheck")), None)
+        if dline is not None:
+            if dline.startswith("dfacheck OK"):
+                res['dfa_checked'] = 1
+            elif "INCONCLUSIVE" in dline:
+                res['problems'].append(('inconclusive', dline))
+            else:
+                m = re.search(r"input=\[([^\]]*)\]", dline)
+                word = [int(x) for x in m.group(1).split()] if m else None
+                failing = confirm(case, wd, text, word) if word is not None else None
+                res['failing_input'] = res.get('failing_input') or failing
+                res['witness'] = res.get('witness') or word
+                res['problems'].append(('dfa-mismatch', "the DFA flex printed (dfa.c, before table compression) does not select the documented "
+                                        "rules (premise of C01_lockstep_sound on the printed DFA fails): %s%s" % (
+                                            dline[:400], ("; failing input " + bytes(failing).hex()) if failing else "")))
     except Exception as ex:
         import traceback
         res['problems'].append(('harness-error', repr(ex) + traceback.format_exc()[-400:]))
     return res
 
 
-def confirm(case, wd, text, word):
+def confirm(case, wd, text, word, alt=None):
     """Scan the distinguishing word (alone, and followed by bytes that end the token) with the compiled scanner and compare
     with the specification's tokenisation."""
     inputs = [word, word + [10], word + [0x7e], word + word]
+    if alt:
+        # two bytes that must be told apart: every sample match with one of them replaced by the other
+        rng0 = Rng(case['seed']).fork("confirm-ec")
+        for rl in case['prog']['rules']:
+            for _ in range(4):
+                try:
+                    smp = scanner.sample(rl['head'], rng0, False, False, case['prog']['csize'])
+                except Exception:
+                    continue
+                for a_, b_ in ((word[0], alt[0]), (alt[0], word[0])):
+                    if a_ in smp:
+                        inputs.append([b_ if x == a_ else x for x in smp])
+                        inputs.append(smp)
     # the word may only distinguish the automata after more input (one of them can still reach a match): continue it with
     # the tails of sample matches of every rule
     rng = Rng(case['seed']).fork("confirm")
@@ -200,6 +287,8 @@ def judge_nfa(ck, cases, results, stats):
     stats['nfa_checked'] = sum(r.get('nfa_checked', 0) for _, r in mine)
     stats['nfa_states_total'] = sum(r.get('nfa_states', 0) for _, r in mine if r.get('nfa_checked'))
     stats['nfa_pairs_checked'] = sum(r.get('nfa_pairs', 0) for _, r in mine)
+    stats['dfa_dumps_checked'] = sum(r.get('dfa_checked', 0) for _, r in mine)
+    stats['ec_tables_checked'] = sum(r.get('ec_checked', 0) for _, r in mine)
     for c, r in mine:
         c['text'] = r.get('text', '')
         for kind, msg in r['problems']:
@@ -218,4 +307,4 @@ def judge_nfa(ck, cases, results, stats):
                       'detail': [list(p) for p in r['problems'][:3]],
                       'how': "flex <opts> -T -o s.c s.l prints the NFA on stderr; extract/flexv_driver (query nfacheck) relates its subset "
                              "simulation to the specification automaton; the distinguishing word is then scanned by the compiled scanner"},
-                     no_input=(kind != 'nfa-mismatch' or not fi))
+                     no_input=(kind not in ('nfa-mismatch', 'dfa-mismatch', 'ec-mismatch') or not fi))
